@@ -28,3 +28,4 @@ Qed.
 
 Print Assumptions c12_worker_woken_after_drop_partial.
 Print Assumptions c12_alive_while_referenced_partial.
+Print Assumptions c12_deref_after_collection_exits_partial.
